@@ -351,6 +351,21 @@ func (m *Mon) stateC15(sc *StepCtx, s *Snap) {
 			m.failState(sc, "C15", "pricing-text-parses", "", "pricing text unparsable: %v", err)
 			continue
 		}
+		for i := range op.ByVol {
+			if i > 0 && op.ByVol[i].Volume < op.ByVol[i-1].Volume {
+				m.failState(sc, "C15", "pricing-well-ordered", "volume", "binding (%s,%.8s) stores volume promotions out of order (%d after %d): %s", b.ServiceName, hexs(b.Provider), op.ByVol[i].Volume, op.ByVol[i-1].Volume, b.Pricing)
+			}
+		}
+		for i, t := range op.ByTime {
+			if !t.End.After(t.Start) || (i > 0 && t.Start.Before(op.ByTime[i-1].End)) {
+				m.failState(sc, "C15", "pricing-well-ordered", "time", "binding (%s,%.8s) stores time promotions that are empty or overlap: %s", b.ServiceName, hexs(b.Provider), b.Pricing)
+			}
+		}
+		for _, d := range append(append([]*big.Rat{}, discountsOf(op)...)) {
+			if d.Sign() <= 0 || d.Cmp(big.NewRat(1, 1)) >= 0 {
+				m.failState(sc, "C15", "pricing-well-ordered", "discount", "binding (%s,%.8s) stores a discount outside (0,1): %s", b.ServiceName, hexs(b.Provider), b.Pricing)
+			}
+		}
 		if msg := pricingDiff(op, p); msg != "" {
 			m.failState(sc, "C15", "pricing-record", "differs", "binding (%s,%.8s): stored price terms differ from published text: %s (after %s)", b.ServiceName, hexs(b.Provider), msg, sc.Step.Desc)
 		}
@@ -446,4 +461,15 @@ func (m *Mon) stateC16(sc *StepCtx, s *Snap) {
 	if len(s.ActiveBindDup) > 0 {
 		m.failState(sc, "C16", "marker-indexes-agree", "duplicate", "request has two by-binding markers")
 	}
+}
+
+func discountsOf(op *OPricing) []*big.Rat {
+	var out []*big.Rat
+	for _, t := range op.ByTime {
+		out = append(out, t.Discount)
+	}
+	for _, v := range op.ByVol {
+		out = append(out, v.Discount)
+	}
+	return out
 }
